@@ -379,6 +379,10 @@ fn sandbox() -> &'static std::path::PathBuf {
         // two names that differ inside a multi-byte character with the same lead byte (completion)
         std::fs::write(p.join("prog-ä.asm"), "#! mrasm\n    INC R0\n    STOP\n").expect("sandbox file");
         std::fs::write(p.join("prog-ö.asm"), "#! mrasm\n    INC R1\n    STOP\n").expect("sandbox file");
+        // uses the stack without LDSP: error stop with SP = 0xFF (outside RAM)
+        std::fs::write(p.join("nosp.asm"), "#! mrasm\n    PUSH R0\n    STOP\n").expect("sandbox file");
+        // keeps running and counting (for large `next N`)
+        std::fs::write(p.join("count.asm"), "#! mrasm\nLOOP:\n    INC R0\n    ST (0xFF), R0\n    JR LOOP\n").expect("sandbox file");
         // drives both DACs high (comparator bits fall), then stops
         std::fs::write(p.join("dac.asm"), "#! mrasm\n    LD R0, 200\n    ST (0xF0), R0\n    ST (0xF1), R0\n    STOP\n").expect("sandbox file");
         std::fs::write(p.join("nonutf8.asm"), [0x23u8, 0x21, 0x20, 0xFF, 0xFE, 0x0A]).expect("sandbox file");
@@ -387,7 +391,7 @@ fn sandbox() -> &'static std::path::PathBuf {
     })
 }
 
-pub const LOAD_TARGETS: [&str; 17] = ["prog-ä.asm", "prog-ö.asm", "dac.asm", "umlaut-lines.asm", "verybad.asm", "progs/sub/a-rather-long-file-name-for-the-info-pane-of-the-sidebar.asm", "long.asm", "good.asm", "progs/a.asm", "progs/b.asm", "progs/sub/c.asm", "with space.asm", "ümlaut.asm", "bad.asm", "nonutf8.asm", "missing.asm", "progs"];
+pub const LOAD_TARGETS: [&str; 19] = ["nosp.asm", "count.asm", "prog-ä.asm", "prog-ö.asm", "dac.asm", "umlaut-lines.asm", "verybad.asm", "progs/sub/a-rather-long-file-name-for-the-info-pane-of-the-sidebar.asm", "long.asm", "good.asm", "progs/a.asm", "progs/b.asm", "progs/sub/c.asm", "with space.asm", "ümlaut.asm", "bad.asm", "nonutf8.asm", "missing.asm", "progs"];
 
 fn key_of(name: &str) -> Option<KeyCode> {
     Some(match name {
@@ -591,7 +595,9 @@ fn run(scn: &Scn, ctx: &mut Ctx) -> Result<(), Violation> {
             let t = input_before.trim_matches(|c| c == ' ' || c == '\t').to_ascii_lowercase();
             if let Some(rest) = t.strip_prefix("next") {
                 let digits: String = rest.trim_start_matches(|c| c == ' ' || c == '\t').chars().take_while(|c| c.is_ascii_digit()).collect();
-                if digits.len() > 5 || digits.parse::<u64>().map(|n| n > 20_000).unwrap_or(false) {
+                // (in Real step mode a clock trigger is one edge: up to 8 M of them are affordable)
+                let cap: u64 = if matches!(s.tui.machine().machine.step_mode(), StepMode::Real) && s.autorun == 0 { 8_000_000 } else { 20_000 };
+                if digits.len() > 7 || digits.parse::<u64>().map(|n| n > cap).unwrap_or(false) {
                     ctx.cov.probe("enter-dropped(unbounded next N)");
                     continue;
                 }
@@ -1047,6 +1053,33 @@ impl Check for C17 {
             }
             events.push(Ev::Key("Enter".into()));
             return Scn { w: 100, h: 40, preload: false, autorun: 0, events, init: [0; 6] };
+        }
+        let fam_idx = idx - enum_count(tier);
+        if fam_idx == 1 || (tier == Tier::Thorough && fam_idx % 20_000 == 1) {
+            // a large `next N` on a program that keeps running (Real step mode)
+            let n = 7_300_000 + rng.below(300_000);
+            let events = vec![Ev::Line("load count.asm".into()), Ev::Line(format!("next {}", n)), Ev::Line("next 3".into())];
+            return Scn { w: 100, h: 40, preload: false, autorun: 0, events, init: [0; 6] };
+        }
+        if fam_idx == 2 || (tier == Tier::Thorough && fam_idx % 20_000 == 2) {
+            // a very long line: a zero-padded value of several thousand digits
+            let zeros = 4_000 + rng.usize(400);
+            let line = format!("{} = {}{}", rng.pick(&["FC", "FD", "FE", "FF"]), "0".repeat(zeros), 1 + rng.below(255));
+            let events = vec![Ev::Line(line), Ev::Key("Up".into()), Ev::Key("Home".into()), Ev::Key("End".into()), Ev::Key("Enter".into())];
+            return Scn { w: 100, h: 40, preload: false, autorun: 0, events, init: [0; 6] };
+        }
+        if rng.chance(1, 60) {
+            // stack used without LDSP (SP leaves RAM), then both views at a large terminal size
+            let (w, h) = (100 + rng.below(150) as u16, 30 + rng.below(70) as u16);
+            let mut events = vec![Ev::Line("load nosp.asm".into())];
+            for _ in 0..12 + rng.below(20) {
+                events.push(Ev::Key("Enter".into()));
+            }
+            events.push(Ev::Line("show memory".into()));
+            events.push(Ev::Line("show register".into()));
+            events.push(Ev::Line(command_line(rng)));
+            events.push(Ev::Line("show memory".into()));
+            return Scn { w, h, preload: false, autorun: 0, events, init: [0; 6] };
         }
         if rng.chance(1, 40) {
             // the same setter twice with a program run and a load in between
